@@ -11,7 +11,7 @@ Section Mon.
   Definition target : option oset := find_set (sc_sets c) (sc_kind c) (sc_ns c) (sc_name c).
   Definition target' : option oset := find_set (sc_sets' c) (sc_kind c) (sc_ns c) (sc_name c).
 
-  Definition members : list ev := flat_map (fun e => match e with SMember x => [x] | SMeta _ => [] end) (sc_events c).
+  Definition members : list ev := flat_map (fun e => match e with SMember x => [x] | _ => [] end) (sc_events c).
   Definition statuses : list (list cond * list okey * option N * bool) :=
     flat_map (fun e => match e with SMeta (MStatus _ cs co _ f ok) => [(cs, co, f, ok)] | _ => [] end) (sc_events c).
 
